@@ -17,7 +17,8 @@ let upd_s (u : CoreKv.cupd) : string = match u with
 let out_s (o : (CoreKv.cval, CoreKv.cupd) Core.out) : obs =
   match o with
   | Core.OMqSub -> "mqsub"
-  | Core.OAccessReq (c, _) -> "accessreq c" ^ string_of_int (int_of_nat c)
+  | Core.OAccessReq (c, _, t) -> Printf.sprintf "accessreq c%d %s" (int_of_nat c) (if int_of_nat t = 0 then "-" else "t" ^ string_of_int (int_of_nat t - 1))
+  | Core.OUnsubEv c -> Printf.sprintf "unsubev c%d" (int_of_nat c)
   | Core.OGetReq -> "getreq"
   | Core.OErr (c, id, e) -> Printf.sprintf "err c%d %d %s" (int_of_nat c) (int_of_nat id)
                               (match e with Core.EDenied -> "system.accessDenied" | Core.ENoSub -> "system.noSubscription" | Core.EInvalid -> "system.invalidParams")
@@ -34,6 +35,8 @@ let op_s (o : CoreKv.cupd Core.op) : string =
   | Core.MqAccess (i, g) -> Printf.sprintf "MqAccess #%d %b" (int_of_nat i) g
   | Core.CUnsub (c, id, k) -> Printf.sprintf "CUnsub c%d %d %d" (int_of_nat c) (int_of_nat id) (int_of_nat k)
   | Core.Disc c -> Printf.sprintf "Disc c%d" (int_of_nat c)
+  | Core.ConnToken (c, t) -> Printf.sprintf "ConnToken c%d %d" (int_of_nat c) (int_of_nat t)
+  | Core.MqReacc -> "MqReacc"
   | Core.MqGet -> "MqGet"
   | Core.MqEvent u -> "MqEvent " ^ upd_s u
   | Core.MqCustom -> "MqCustom"
@@ -95,7 +98,7 @@ let check_file (path : string) =
         | Conv.INop _ :: _ -> bump "access-through-resource-queue"
         | Conv.IGetResp _ :: _ -> bump "get-response"
         | Conv.IAddSub s :: _ -> bump (if ((!st).Core.cv.Conv.subs s).Conv.closed then "add-subscriber-of-closed-connection" else "add-subscriber")
-        | Conv.IEvent _ :: _ -> bump "event" | Conv.ICustom :: _ -> bump "custom" | [] -> bump "empty-grant")
+        | Conv.IEvent _ :: _ -> bump "event" | Conv.ICustom :: _ -> bump "custom" | Conv.IReacc :: _ -> bump "reaccess-event" | [] -> bump "empty-grant")
      | Core.GrantConn c ->
        let x = (!st).Core.conns c in
        let sub i = (!st).Core.cv.Conv.subs i in
@@ -103,14 +106,19 @@ let check_file (path : string) =
         | Core.QAccess i :: _ ->
           let y = sub i in
           bump (if y.Conv.gone then "access-answer-after-dispose"
-                else match ((!st).Core.insts i).Core.ans with
-                  | Some true -> if L.length ((!st).Core.insts i).Core.acb > 1 then "access-granted-several-waiting" else "access-granted"
-                  | Some false -> "access-denied" | None -> "access-item-without-answer")
+                else let y' = (!st).Core.insts i in
+                  let hasval = L.exists (fun b -> b = Core.AVal) y'.Core.acb in
+                  match y'.Core.ans with
+                  | Some true -> if hasval then (if L.length y'.Core.acb > 1 then "revalidation-granted-with-requests-waiting" else if y'.Core.reflag then "revalidation-granted-another-trigger-waiting" else "revalidation-granted")
+                    else if L.length y'.Core.acb > 1 then "access-granted-several-waiting" else "access-granted"
+                  | Some false -> if hasval then "revalidation-denied" else "access-denied"
+                  | None -> "access-item-without-answer")
         | Core.QSub i :: _ ->
           let y = sub i in
           (match y.Conv.cq with
            | Conv.CLoaded :: _ -> bump (if y.Conv.gone then "loaded-after-dispose" else if L.length ((!st).Core.insts i).Core.rcb > 1 then "loaded-several-waiting" else "loaded")
-           | Conv.CEvent _ :: _ -> bump (if y.Conv.gone then "event-after-dispose" else if y.Conv.flag then "event-held" else "event-delivered")
+           | Conv.CEvent _ :: _ -> bump (if y.Conv.gone then "event-after-dispose" else if ((!st).Core.insts i).Core.rq then "event-held-for-revalidation" else if y.Conv.flag then "event-held" else "event-delivered")
+           | Conv.CReacc :: _ -> bump (if y.Conv.gone then "reaccess-after-dispose" else if y.Conv.flag then "reaccess-deferred" else "reaccess-handled")
            | [] -> bump "sub-item-missing")
         | Core.QDispose :: _ ->
           (match x.Core.cur with
@@ -122,6 +130,10 @@ let check_file (path : string) =
            | Some i -> bump (match ((!st).Core.insts i).Core.acc with
                | Some true -> if (sub i).Conv.loaded then "request-again-served-at-once" else "request-again-waits-for-resource"
                | _ -> "request-again-waits-for-access"))
+        | Core.QToken _ :: _ ->
+          (match x.Core.cur with
+           | Some i -> bump (if not x.Core.tokset then "first-token" else if (sub i).Conv.flag then "token-reaccess-deferred" else "token-reaccess-handled")
+           | None -> bump "token-without-subscription")
         | Core.QUnsub (_, k) :: _ ->
           (match x.Core.cur with
            | Some _ -> bump (if int_of_nat k = 0 then "unsubscribe-bad-count" else if int_of_nat k > int_of_nat x.Core.direct then "unsubscribe-too-many"
@@ -131,7 +143,7 @@ let check_file (path : string) =
      | _ -> ());
     let (s', outs) = CoreKv.kstep !st o in
     st := s';
-    L.iter (fun o -> match o with Core.OAccessReq (_, i) -> exp_insts := int_of_nat i :: !exp_insts | _ -> ()) outs;
+    L.iter (fun o -> match o with Core.OAccessReq (_, i, _) -> exp_insts := int_of_nat i :: !exp_insts | _ -> ()) outs;
     pending := Some (ln, o, L.map out_s outs) in
   let see (o : obs) = observed := o :: !observed in
   let i = ref 0 in
@@ -166,8 +178,8 @@ let check_file (path : string) =
           else raise (Out_of_profile (ln, "grant " ^ g))
         | None -> raise (Out_of_profile (ln, "grant " ^ g)))
      | "MQSUB" :: "event" :: _ -> see "mqsub"
-     | "MQREQ" :: num :: "access" :: _ :: _ :: c :: _ ->
-       Hashtbl.replace reqs (int_of_string num) ("access", cidx c); obs_nums := int_of_string num :: !obs_nums; see ("accessreq " ^ c)
+     | "MQREQ" :: num :: "access" :: _ :: _ :: c :: tokn :: _ ->
+       Hashtbl.replace reqs (int_of_string num) ("access", cidx c); obs_nums := int_of_string num :: !obs_nums; see ("accessreq " ^ c ^ " " ^ tokn)
      | "MQREQ" :: num :: "get" :: _ ->
        Hashtbl.replace reqs (int_of_string num) ("get", 0); see "getreq"
      | "MQREQ" :: _ :: typ :: _ -> see ("mqreq " ^ typ)
@@ -199,6 +211,9 @@ let check_file (path : string) =
      | "MQEV" :: _ :: "add" :: idx :: v :: _ when int_of_string idx >= 0 -> do_op ln (Core.MqEvent (CoreKv.UAdd (nat_of_int (int_of_string idx), Absparse.value_of v)))
      | "MQEV" :: _ :: "remove" :: idx :: _ when int_of_string idx >= 0 -> do_op ln (Core.MqEvent (CoreKv.URemove (nat_of_int (int_of_string idx))))
      | "MQEV" :: _ :: "custom" :: _ -> do_op ln Core.MqCustom
+     | "MQEV" :: _ :: "reaccess" :: _ -> do_op ln Core.MqReacc
+     | "CONNEV" :: c :: "token" :: tk :: _ when S.length tk > 1 && S.get tk 0 = 't' ->
+       do_op ln (Core.ConnToken (nat_of_int (cidx c), nat_of_int (1 + int_of_string (S.sub tk 1 (S.length tk - 1)))))
      | "MQEV" :: _ -> raise (Out_of_profile (ln, "service event: " ^ lines.(!i)))
      | "RESP" :: _ :: _ :: "version" :: _ -> ()
      | "RESP" :: c :: id :: "ok" :: rs :: _ ->
@@ -215,6 +230,7 @@ let check_file (path : string) =
      | "EV" :: c :: _ :: "add" :: idx :: v :: "-" :: _ -> see (Printf.sprintf "event %s add %s %s" c idx v)
      | "EV" :: c :: _ :: "remove" :: idx :: _ -> see (Printf.sprintf "event %s remove %s" c idx)
      | "EV" :: c :: _ :: "custom" :: _ -> see ("custom " ^ c)
+     | "EV" :: c :: _ :: "unsub" :: "system.accessDenied" :: _ -> see ("unsubev " ^ c)
      | "EV" :: c :: _ :: k :: _ -> see ("event " ^ c ^ " " ^ k)
      | "MQUNSUB" :: "conn" :: c :: _ -> see ("connunsub " ^ c)
      | "MQUNSUB" :: _ -> see "mqunsub"
